@@ -319,7 +319,7 @@ def run(tier):
     recs = c05.programs(chk)
     rnd = C.rng('c13')
     frac = 0.05 if tier == 'quick' else 0.5
-    pj = [(r, C.seed()) for r in recs if rnd.random() < frac]
+    pj = [(r, C.seed()) for r in recs if C.pick(r, frac, 'c13-programs')]
     for (r, _), o in C.parallel_imap(program_case, pj, chunksize=8):
         chk.case(dict(r=r), len(r['rot']) + len(r['tra']) + len(r['scl']) >= 2,
                  sample=dict(program=o['argv'], maps=r['maps']))
